@@ -440,7 +440,7 @@ impl Engine for E2U {
         let single = w.one_in(3);
         let nds = if single { 1 } else { w.range(1, 3) as usize };
         let mut st = WorldStats::default();
-        let names = ["fake", "Fake", "RANDOM"];
+        let names = ["fake", "Fake", "BTC/USDT+100% ü"]; // case twins; a name that must be percent-encoded in a URL
         let datasets: Vec<DatasetSpec> = (0..nds).map(|i| gen_dataset(&mut w, names[i], &cfg, &mut st)).collect();
         let mut c = root.fork("cfg");
         let max_ops = if crate::common::long_run(seed, tier) { if tier == Tier::Thorough { c.range(300, 1200) as usize } else { c.range(200, 500) as usize } } else if tier == Tier::Thorough { c.range(20, 300) as usize } else { c.range(10, 60) as usize };
@@ -762,7 +762,7 @@ impl Engine for E2J {
         let single = w.one_in(3);
         let nds = if single { 1 } else { w.range(1, 3) as usize };
         let mut st = WorldStats::default();
-        let names = ["fake", "Fake", "RANDOM"];
+        let names = ["fake", "Fake", "BTC/USDT+100% ü"]; // case twins; a name that must be percent-encoded in a URL
         let datasets: Vec<DatasetSpec> = (0..nds).map(|i| gen_dataset(&mut w, names[i], &cfg, &mut st)).collect();
         let mut c = root.fork("cfg");
         let max_ops = if crate::common::long_run(seed, tier) { if tier == Tier::Thorough { c.range(300, 1200) as usize } else { c.range(200, 500) as usize } } else if tier == Tier::Thorough { c.range(20, 300) as usize } else { c.range(10, 60) as usize };
